@@ -38,6 +38,19 @@ def main(order):
             (tmp / lib / "amps.py").write_text(f"GAIN = {gain}\n" + SRC)
         sys.path.insert(0, str(tmp))
         out = {}
+
+        @h.paramclass
+        class PG:
+            g = h.Param(dtype=h.Generator, desc="a generator")
+
+        @h.generator
+        def UsesGen(p: PG) -> h.Module:
+            m = h.Module()
+            m.a, m.b = h.Signals(2)
+            m.i = p.g(w=1)(inp=m.a, out=m.b)
+            return m
+
+        uses = {}
         for lib in order:
             mod = importlib.import_module(lib + ".amps")
             top = h.Module(name="Top_" + lib)
@@ -45,6 +58,10 @@ def main(order):
             top.x = mod.Amp(w=2)(inp=top.a, out=top.b)
             top.y = mod.Bias(vss=top.a)
             out[lib] = sorted(m.name for m in h.to_proto(top).modules)
+            # the library's generator as a *parameter value* of another generator
+            uses[lib] = UsesGen(g=mod.Amp)
+        out["generator_valued"] = {lib: u.name for lib, u in sorted(uses.items())}
+        out["generator_valued"]["distinct_modules"] = uses["liba"] is not uses["libb"]
     finally:
         shutil.rmtree(tmp, ignore_errors=True)
     print(json.dumps(out, sort_keys=True))
